@@ -36,6 +36,11 @@ void harness(void) {
   ASSERT(est <= total, "estimate at most the total weight");
   ASSERT(w_cm_lower(a, q) <= est && est <= w_cm_upper(a, q), "lower bound <= estimate <= upper bound");
   ASSERT(w_cm_estimate(c, q) == est, "merged sketch and single-stream sketch give the same estimate");
+#if NU <= 1
+  /* every typed overload hashes the same 8 bytes: the int64 overloads must agree with the uint64 ones */
+  ASSERT(w_cm_estimate_i64(a, (int64_t)q) == est && w_cm_lower_i64(a, (int64_t)q) == w_cm_lower(a, q), "int64 overloads of estimate / lower bound agree with the uint64 overloads (the upper bound involves a floating-point product and is compared in one overload only)");
+  ASSERT(w_cm_lower_i64(a, (int64_t)q) <= w_cm_estimate_i64(a, (int64_t)q), "lower bound <= estimate through the int64 overload");
+#endif
   w_cm_delete(a); w_cm_delete(b); w_cm_delete(c);
 #endif
   WITNESS();
